@@ -33,6 +33,7 @@ type specCtx struct {
 	expanding map[string]bool   // tracked objects whose model is being expanded (ownership is acyclic)
 	preHeap   map[string]string // hints: the heap just before the call the hint is attached to
 	preNow    string
+	cells     map[string]Val // captured variables of the function under verification: name -> cell address
 }
 
 func (sc *specCtx) withVar(name string, v Val) *specCtx {
@@ -58,6 +59,9 @@ func (sc *specCtx) lookup(name string) (Val, bool) {
 		}
 		return Val{S: STuple, Tup: sc.result}, true
 	}
+	if cell, ok := sc.cells[name]; ok {
+		return sc.cellContent(cell), true
+	}
 	if sc.useNames {
 		if name == "$rpos" {
 			if it, ok := sc.st.names["$iter"]; ok {
@@ -65,12 +69,18 @@ func (sc *specCtx) lookup(name string) (Val, bool) {
 				return intVal(sel(r, it.T)), true
 			}
 		}
+		if cell, ok := sc.st.names["&"+name]; ok {
+			return sc.cellContent(cell), true
+		}
 		if v, ok := sc.st.names[name]; ok {
 			return v, true
 		}
 	}
 	if v, ok := sc.params[name]; ok {
 		return v, true
+	}
+	if cell, ok := sc.cells[name]; ok {
+		return sc.cellContent(cell), true
 	}
 	switch name {
 	case "nil":
@@ -89,6 +99,19 @@ func (sc *specCtx) lookup(name string) (Val, bool) {
 		return intVal(sc.now), true
 	}
 	return Val{}, false
+}
+
+// cellContent: the value a captured variable holds in the heap the context evaluates in
+func (sc *specCtx) cellContent(cell Val) Val {
+	var et types.Type
+	es := SU
+	if pt, ok := cell.GT.Underlying().(*types.Pointer); ok {
+		et = pt.Elem()
+		es = sortOfType(et)
+	}
+	rn, rs := cellRegion(es)
+	r := sc.fc.regionIn(sc.st, sc.heap, rn, rs)
+	return Val{T: sel(r, cell.T), S: es, GT: et}
 }
 
 func (sc *specCtx) eval(e Expr) Val {
